@@ -121,6 +121,8 @@ def compr_permutation_lat_trans_O4(
     # order = 3
     if n_batch is None:
         n_batch3 = 1 if natom <= 128 else int(round((natom / 128) ** 2))
+    else:
+        n_batch3 = n_batch
 
     combinations = get_combinations(
         natom, order=3, fc_cutoff=fc_cutoff, indep_atoms=indep_atoms
@@ -177,6 +179,8 @@ def compr_permutation_lat_trans_O4(
     # order = 4
     if n_batch is None:
         n_batch4 = 1 if natom <= 16 else int(round((natom / 16) ** 2))
+    else:
+        n_batch4 = n_batch
 
     combinations = get_combinations(
         natom, order=4, fc_cutoff=fc_cutoff, indep_atoms=indep_atoms
